@@ -82,6 +82,10 @@ def main(tier):
             [["fwd", "dispG"], ["fwd", "dispH"], ["fwd", "dispG"], ["fwd", "h2oA"]],
             [["fwd", "dispH"], ["fwd", "dispG"], ["fwd", "dispH"], ["fwd", "cisC"]],
             [["fwd", "tight"], ["fwd", "tight"], ["bwd", ["tight"]], ["fwd", "nh3A"]],
+            [["fwd", "farI"], ["fwd", "cisC"], ["fwd", "farI"], ["fwd", "h2oA"]],          # far pairs: nothing may depend on what the allocator hands back
+            [["fwd", "h2oA"], ["fwd", "farI"], ["fwd", "mdF"], ["fwd", "farI"]],
+            [["fwd", "uhfJ"], ["fwd", "tight"], ["bwd", ["tight"]], ["fwd", "h2oA"]],       # a call refused inside the solver leaves no trace (grad mode, class state)
+            [["fwd", "h2oA"], ["fwd", "uhfJ"], ["fwd", "h2oA"], ["fwd", "loose"]],
         ]
         must = [model[json.dumps(k)] for k in must_keys if json.dumps(k) in model]
         pick = must + common_sample(rng, [h for h in interesting if h not in must], n * 2 // 3) + common_sample(rng, full, n // 3)
@@ -182,7 +186,7 @@ def main(tier):
             "rule": "histories of length L exported from TLC (SessionGen); non-trivial = at least two different jobs; sampled by VERIF_SEED with four fixed histories (tight/loose summed backward, dict reuse with a new element, failed call then reuse, MD/CIS/UHF chain)",
             "exhaustive": False,
         }
-        return rep.finish(cov, assumptions=["job pool of 9 heterogeneous jobs on small molecules; intra-op threads set to 1 for bitwise comparison",
+        return rep.finish(cov, assumptions=["job pool of 13 heterogeneous jobs on small molecules; intra-op threads set to 1 for bitwise comparison",
                                             "shared mutable default dicts (learned_parameters=dict()) are observed to accumulate keys; they are overwritten before being read (checked through the result comparison), not modelled as hidden state",
                                             "driver objects are created per call from the settings dict (reusing a driver across element sets is not part of the pool)"])
     finally:
